@@ -13,3 +13,5 @@ for i in 01 02 03 04 05 06 07 08 09 10 11 12 13 14 15 16 17 18 19 20; do
   echo "$out" | grep '^VIOLATION\|TIE-DEGRADED' | head -5 | tee -a $D/result.txt
 done
 git -C /repo checkout -- .
+# regenerate the model files from the restored tree
+cd /verif && python3 tools/rs2lean.py /repo/kurbo/src lean/Kurbo/Gen/Kernel.lean --suffix _g >/dev/null && python3 tools/rs2lean.py /repo/kurbo/src lean/Kurbo/Gen/Kernel2.lean --suffix _g --tier 2 >/dev/null && python3 tools/gen_equiv.py lean/Proofs/GenEquiv.lean >/dev/null && python3 tools/gen_equiv2.py lean/Proofs/GenEquiv2.lean >/dev/null
